@@ -93,6 +93,19 @@ func checkID(id, kind string, sigil byte) (err error) {
 	return
 }
 
+// checkRoomIDV1 checks that the ID is a valid room ID for room versions that
+// have a domain in their room IDs. It accepts exactly what the RoomID()
+// accessors are able to represent, so that they cannot fail on parsed events.
+func checkRoomIDV1(id string) error {
+	if err := checkID(id, "room", '!'); err != nil {
+		return err
+	}
+	if _, err := spec.NewRoomID(id); err != nil {
+		return fmt.Errorf("gomatrixserverlib: invalid room ID %q: %w", id, err)
+	}
+	return nil
+}
+
 // SplitID splits a matrix ID into a local part and a server name.
 func SplitID(sigil byte, id string) (local string, domain spec.ServerName, err error) {
 	// IDs have the format: SIGIL LOCALPART ":" DOMAIN
